@@ -6,8 +6,8 @@
   end tag; a void element with children makes `Render` fail, which `dom.OuterHTML` turns into
   the empty string), literal text children of `iframe noembed noframes noscript plaintext script
   style xmp`, the extra newline after `<pre>` / `<listing>` / `<textarea>` whose first child is a
-  text starting with a newline, comments.  Not modelled: `<plaintext>` aborting the remaining end
-  tags, doctype and raw nodes (`other` nodes of kind ≠ comment render as nothing here; they never
+  text starting with a newline, `<plaintext>` aborting the remaining siblings
+  and end tags.  Not modelled: comment, doctype and raw nodes (`other` nodes of kind ≠ comment render as nothing here; they never
   occur in the clones the distiller serialises).
 -/
 import Distill.Model.Dom
@@ -45,28 +45,57 @@ def startsWithNewline (ks : List Node) : Bool :=
   | .text _ d :: _ => (match d.toList with | '\n' :: _ => true | _ => false)
   | _ => false
 
+/-- outcome of `render1`: an error, the text written, or the text written followed by the
+`plaintextAbort` that stops every enclosing `render1` (no further siblings, no end tags) -/
+inductive RenderRes where
+  | err
+  | ok (s : List Char)
+  | abort (s : List Char)
+
 mutual
-/-- `html.Render` of one node; `none` = Render returns an error -/
-def renderNode (lit : Bool) : Node → Option (List Char)
-  | .text _ d => some (if lit then d.toList else escapeChars d.toList)
-  | .other _ _ => some []
+/-- `html.render1` of one node; `lit` = the parent writes text children unescaped -/
+def render1 (lit : Bool) : Node → RenderRes
+  | .text _ d => .ok (if lit then d.toList else escapeChars d.toList)
+  | .other _ _ => .ok []
   | .elem _ t attrs ks =>
     let open_ := '<' :: t.toList ++ attrsChars attrs
     if voidTags.contains t then
-      (if ks.isEmpty then some (open_ ++ ['/', '>']) else none)
+      (if ks.isEmpty then .ok (open_ ++ ['/', '>']) else .err)
     else
-      match renderKids (literalTextTags.contains t) ks with
-      | none => none
-      | some inner =>
-        some (open_ ++ '>' :: (if newlineTags.contains t && startsWithNewline ks then ['\n'] else [])
-              ++ inner ++ '<' :: '/' :: t.toList ++ ['>'])
+      let head := open_ ++ '>' :: (if newlineTags.contains t && startsWithNewline ks then ['\n'] else [])
+      match render1Kids (literalTextTags.contains t) ks with
+      | .err => .err
+      | .abort inner => .abort (head ++ inner)
+      | .ok inner =>
+        if t == "plaintext" then .abort (head ++ inner)
+        else .ok (head ++ inner ++ '<' :: '/' :: t.toList ++ ['>'])
+def render1Kids (lit : Bool) : List Node → RenderRes
+  | [] => .ok []
+  | k :: ks =>
+    match render1 lit k with
+    | .err => .err
+    | .abort a => .abort a
+    | .ok a =>
+      match render1Kids lit ks with
+      | .err => .err
+      | .abort b => .abort (a ++ b)
+      | .ok b => .ok (a ++ b)
+end
+
+/-- `html.Render` of one node (`plaintextAbort` is not an error); `none` = Render fails -/
+def renderNode (lit : Bool) (n : Node) : Option (List Char) :=
+  match render1 lit n with
+  | .err => none
+  | .ok s => some s
+  | .abort s => some s
+
+/-- every child rendered by its own `html.Render` call, concatenated -/
 def renderKids (lit : Bool) : List Node → Option (List Char)
   | [] => some []
   | k :: ks =>
     match renderNode lit k, renderKids lit ks with
     | some a, some b => some (a ++ b)
     | _, _ => none
-end
 
 /-- `unicode.IsSpace` -/
 def isSpaceChar (c : Char) : Bool :=
